@@ -165,6 +165,10 @@ def run(ctx):
         ctx.nontrivial.add(klass(r))
         if r["id"] in bad:
             ctx.reject(classify(r, bad[r["id"]]), f"spec rejects record: {bad[r['id']]}", r)
+    if thorough:
+        from .. import suite
+
+        suite.validate(ctx, "C01-")
     ctx.evaluations = len(recs)
     ctx.selftest_corrupt("C01Trace", recs, bad)
     for r in recs[:2]:
